@@ -370,21 +370,42 @@ var pureLib = map[string]bool{
 	"reflect.TypeOf": true, "reflect.ValueOf": true, "(reflect.Value).Field": true, "(reflect.Value).Interface": true, "(reflect.Value).Elem": true,
 }
 
+func paramTypes(sig *types.Signature) []types.Type {
+	var out []types.Type
+	for i := 0; i < sig.Params().Len(); i++ {
+		out = append(out, sig.Params().At(i).Type())
+	}
+	return out
+}
+
+func (p *Program) inPurePkg(f *ssa.Function) bool {
+	if len(p.contracts.PurePkgs) == 0 {
+		return false
+	}
+	if tp := fnPkg(f); tp != nil {
+		return p.contracts.PurePkgs[tp.Path()]
+	}
+	return false
+}
+
 func (ex *Exec) pureLibCall(name string, callee *ssa.Function, args []Val, st *State, k CallCont) {
-	vc := ex.vc
 	sig := callee.Signature
+	var ats []types.Type
+	if sig.Recv() != nil {
+		ats = append(ats, sig.Recv().Type())
+	}
+	ats = append(ats, paramTypes(sig)...)
+	ex.pureCall(name, sig, ats, args, st, k)
+}
+
+// pureCall: the result is an uninterpreted function (one symbol per name and argument sorts) of the arguments.
+func (ex *Exec) pureCall(name string, sig *types.Signature, ats []types.Type, args []Val, st *State, k CallCont) {
+	vc := ex.vc
 	var as, sorts []string
-	params := sig.Params()
 	for i, a := range args {
 		var t types.Type
-		if sig.Recv() != nil {
-			if i == 0 {
-				t = sig.Recv().Type()
-			} else if i-1 < params.Len() {
-				t = params.At(i - 1).Type()
-			}
-		} else if i < params.Len() {
-			t = params.At(i).Type()
+		if i < len(ats) {
+			t = ats[i]
 		}
 		tm := ex.toTerm(st, a, t)
 		as = append(as, tm.S)
